@@ -109,7 +109,9 @@ impl<'a> Tycker<'a> {
         self.statics_term_ariadne_span((*ty).into())
     }
 
-    fn inference_site_ariadne_span(&self, site: InferenceSite) -> (PathDisplay, Range<usize>) {
+    pub(super) fn inference_site_ariadne_span(
+        &self, site: InferenceSite,
+    ) -> (PathDisplay, Range<usize>) {
         match site {
             | InferenceSite::Term(term) => term.span(self).to_ariadne_span(),
             | InferenceSite::Pattern(pattern) => pattern.span(self).to_ariadne_span(),
